@@ -183,7 +183,8 @@ def eval_pipeline(case):
         # the consistency columns as recompute_edges re-writes them: one-sided definitions at the burst edges (oracle shared with C16)
         from bycycle.burst import recompute_edges
         from bcmc.props.C16 import check_edges
-        thr = S.call_kwargs(o)['threshold_kwargs']
+        from bcmc.ref.burst import CYC_DEFAULTS
+        thr = S.call_kwargs(o).get('threshold_kwargs') or dict(CYC_DEFAULTS)
         out = recompute_edges(df.copy(), dict(thr))
         v, _, _ = check_edges(df, out, thr, centre, True, dict(sgn, via='recompute_edges'))
         if v is not None:
